@@ -10,40 +10,52 @@ What the theorems rest on (Restful/Lemmas/Panic.lean):
 * the panic a request raises is a function `Serve.Panic.raised` of routing, the kinds of the filters
   on its chain and the scripts — not of the writer, of content coding or of the recovery switch
   (`runChain_panic`); it is what `c10Holds` calls `raw.escaped` (`C10_raised`);
-* `finishDispatch`: recovery on ⇒ nothing leaves `dispatch`, one recover-handler call iff a panic was
-  raised; recovery off ⇒ the value is handed on unchanged;
+* `finishDispatch` and, since a0e838d, `plainFilteredBody` (`HandleWithFilter` with container
+  filters): recovery on ⇒ nothing leaves the chain, one recover-handler call iff a panic was raised;
+  recovery off ⇒ the value is handed on unchanged;
 * a simulation between the real run and the run without coding (`runChain_rel`, `Sim`): the real
   status is locked only if the other one is, so "nothing had been written" transfers and the recover
   handler's first `WriteHeader`/`Write` decides the status, through a compressing writer as well;
 * every path through every entry point ends with the `Close` of whoever installed the compressing
   writer, so the ledger is balanced and the coded stream complete, panic or not.
 
-Deviations.
-* F18 (code): the chain `HandleWithFilter` builds has no recovery around it.  `C10_partial` excludes
-  `Spec.f18Class`; `C10_F18` shows that every request in that class violates `c10Holds` on the model
-  (the panic escapes), `C10_F18_witness` is a concrete instance.
-* recover handler that panics (model/spec, not a claim about the code): `Serve.runRecover` drops a
-  panic raised by the custom recover script, while `Spec.recoverStatus` looks past a `.panic` act for
-  the script's first `writeHeader`.  For a recover script that panics before its first
-  `write`/`writeHeader` the status clause of `c10Holds` is therefore false on the model
-  (`C10_recover_handler_panics_witness`).  `C10_partial` carries the hypothesis
-  `cfg.recover = true → Spec.recoverPanicsEarly cfg = false`; all other clauses (`C10_on`, `C10_off`,
-  `C10_balanced`, `C10_usable`) hold without it.
+Scope of recovery (`Serve.Panic.covered`, the same Boolean as `covered` in `Spec.c10Holds`): the
+chains the framework builds — routed requests (`Dispatch`, `ServeHTTP` → `dispatch`) and
+`HandleWithFilter` when there are container filters.  A plain `http.Handler` registered with
+`Handle`, or with `HandleWithFilter` on a container without filters (then it is called directly),
+is neither a filter nor a route function: its panic propagates (`C10_plain_propagates`).
+
+F18 — REPAIRED (a0e838d).  The chain `HandleWithFilter` builds had no recovery around it: with
+recovery on a panicking container filter (or the handler behind it) escaped `ServeHTTP`.  The former
+main theorem `C10_partial` excluded that class (`Spec.f18Class`, now constantly `false` and kept only
+for the driver protocol) and `C10_F18_witness` exhibited the escape.  The main theorem is now
+`C10_recovery`, for ALL entry points without any finding hypothesis; `C10_on`, `C10_status`,
+`C10_status_default` speak of every covered entry point; `C10_F18_fixed` is the former witness
+configuration, on which the property now holds.
+
+One restriction of the *spec* remains (not a claim about the code): `Serve.runRecover` drops a panic
+raised by the custom recover script, while `Spec.recoverStatus` looks past a `.panic` act for the
+script's first `writeHeader`.  For a recover script that panics before its first
+`write`/`writeHeader` the status clause of `c10Holds` is therefore false on the model
+(`C10_recover_handler_panics_witness`).  `C10_recovery` and `C10_status` carry the hypothesis
+`Spec.recoverPanicsEarly cfg = false`; all other clauses (`C10_on`, `C10_off`, `C10_balanced`,
+`C10_usable`) hold without it.
 -/
 import Restful.Lemmas.Panic
 namespace Restful
 namespace Props
 open Serve Serve.Panic
 
-/-- The model satisfies `c10Holds` for every configuration, entry point and request outside the F18
-    class, provided the custom recover handler (if recovery is on) does not itself panic before it
-    wrote anything.  Clause by clause: recovery on and a routed entry point — nothing escapes, the
-    ledger is balanced and the coded stream complete, the recover handler is called once iff the
-    request raises a panic, and if nothing had been written before the panic the client sees the
-    recover handler's status (500 by default); otherwise (recovery off, or a plain handler registered
-    with `Handle`) — the panic reaches the caller unchanged and the ledger is balanced. -/
-theorem C10_partial (E : ReEnv) (cfg : Serve.Cfg) (e : Serve.Entry) (sr : Serve.SReq)
-    (h18 : Spec.f18Class E cfg e sr = false)
+/-- **C10.**  The model satisfies `c10Holds` for EVERY configuration, entry point (`Dispatch`,
+    `ServeHTTP`, `Handle`, `HandleWithFilter`, the last two with or without `ServeHTTP` in front) and
+    request, provided the custom recover handler (if recovery is on) does not itself panic before it
+    wrote anything.  Clause by clause: recovery on and a covered entry point (routed, or
+    `HandleWithFilter` with container filters) — nothing escapes, the ledger is balanced and the coded
+    stream complete, the recover handler is called once iff the request raises a panic, and if nothing
+    had been written before the panic the client sees the recover handler's status (500 by default);
+    otherwise (recovery off, or a plain handler called directly) — the panic reaches the caller
+    unchanged and the ledger is balanced. -/
+theorem C10_recovery (E : ReEnv) (cfg : Serve.Cfg) (e : Serve.Entry) (sr : Serve.SReq)
     (hrec : cfg.recover = true → Spec.recoverPanicsEarly cfg = false) :
     Spec.c10Holds E cfg e sr (Spec.obsOf (Serve.serve E cfg e {} sr)) = true := by
   rw [c10Holds_eq, ledgerOK_serve]
@@ -58,23 +70,15 @@ theorem C10_partial (E : ReEnv) (cfg : Serve.Cfg) (e : Serve.Entry) (sr : Serve.
     exact hesc
   | true =>
     rw [hr] at hesc hn
-    cases hro : routed e with
+    cases hco : covered cfg e with
     | false =>
-      have hpf : Spec.panicFromFilter E cfg e sr = false := by
-        cases e with
-        | dispatch => cases hro
-        | serveDispatch => cases hro
-        | muxHandle => exact panicFromFilter_plain E cfg _ sr (Or.inl rfl)
-        | serveHandle => exact panicFromFilter_plain E cfg _ sr (Or.inr rfl)
-        | muxHandleF => simpa [Spec.f18Class, hr] using h18
-        | serveHandleF => simpa [Spec.f18Class, hr] using h18
-      rw [hro] at hesc
-      simp only [hpf, Bool.or_self, Bool.and_false, Bool.false_eq_true, if_false, Bool.and_true, beq_iff_eq]
+      rw [hco] at hesc
+      simp only [Bool.and_false, Bool.false_eq_true, if_false, Bool.and_true, beq_iff_eq]
       rw [hraw]
       exact hesc
     | true =>
-      rw [hro] at hesc hn
-      simp only [Bool.true_or, Bool.and_self, if_true, Bool.and_true, Bool.and_eq_true, Bool.or_eq_true,
+      rw [hco] at hesc hn
+      simp only [Bool.and_self, if_true, Bool.and_true, Bool.and_eq_true, Bool.or_eq_true,
         beq_iff_eq, Bool.not_eq_true', Bool.and_eq_false_imp]
       refine ⟨⟨?_, Or.inr ?_⟩, ?_⟩
       · simp only [Spec.obsOf]
@@ -90,10 +94,17 @@ theorem C10_partial (E : ReEnv) (cfg : Serve.Cfg) (e : Serve.Entry) (sr : Serve.
           | none =>
             right
             rw [serve_eq] at hst
-            have := serveCore_status E cfg e sr hr hro (hrec hr) hp hst
+            have := serveCore_status E cfg e sr hr hco (hrec hr) hp hst
             rw [serve_eq]
             exact this
         · exact Or.inl (fun h => absurd h hp)
+
+/-- the scope of recovery in `Spec.c10Holds`, spelled out: routed entry points, and
+    `HandleWithFilter` on a container with at least one filter -/
+theorem C10_covered_iff (cfg : Cfg) (e : Entry) :
+    covered cfg e = true ↔
+      (e = .dispatch ∨ e = .serveDispatch ∨ ((e = .muxHandleF ∨ e = .serveHandleF) ∧ cfg.cfilters ≠ [])) :=
+  covered_iff cfg e
 
 /-- `raw.escaped` in `c10Holds` — the same request with coding and recovery switched off — is the
     panic the request raises, as computed from routing, filter kinds and scripts alone -/
@@ -102,35 +113,40 @@ theorem C10_raised (E : ReEnv) (cfg : Cfg) (e : Entry) (sr : SReq) :
       raised E cfg e sr :=
   raw_escaped E cfg e {} sr
 
-/-- Recovery on, routed entry points (`Dispatch`, `ServeHTTP` → `dispatch`): no panic escapes, and
-    the recover handler is called exactly once if the request raises a panic (in a container filter,
-    service filter, route filter, the route function, an If-condition or the router), never otherwise. -/
+/-- Recovery on, every covered entry point (`Dispatch`, `ServeHTTP` → `dispatch`, and
+    `HandleWithFilter` on a container with filters, with or without `ServeHTTP` in front): no panic
+    escapes, and the recover handler is called exactly once if the request raises a panic (in a
+    container filter, service filter, route filter, the route function, the plain handler behind
+    `HandleWithFilter`, an If-condition or the router), never otherwise. -/
 theorem C10_on (E : ReEnv) (cfg : Cfg) (e : Entry) (w : World) (sr : SReq)
-    (he : e = .dispatch ∨ e = .serveDispatch) (hr : cfg.recover = true) :
+    (he : e = .dispatch ∨ e = .serveDispatch ∨ ((e = .muxHandleF ∨ e = .serveHandleF) ∧ cfg.cfilters ≠ []))
+    (hr : cfg.recover = true) :
     (serve E cfg e w sr).escaped = none ∧
       (serve E cfg e w sr).recoverCalls = (if (raised E cfg e sr).isSome then 1 else 0) := by
-  have hro : routed e = true := by rcases he with rfl | rfl <;> rfl
-  rw [serve_escaped, serve_recoverCalls, hr, hro]
+  have hco : covered cfg e = true := (covered_iff cfg e).mpr he
+  rw [serve_escaped, serve_recoverCalls, hr, hco]
   exact ⟨rfl, rfl⟩
 
-/-- Recovery on, routed entry points: if the request raises a panic before anything was written
+/-- Recovery on, every covered entry point: if the request raises a panic before anything was written
     (the run without coding and recovery ends with the status still open), the client sees the status
     of the recover handler — also through a compressing writer. -/
 theorem C10_status (E : ReEnv) (cfg : Cfg) (e : Entry) (w : World) (sr : SReq)
-    (he : e = .dispatch ∨ e = .serveDispatch) (hr : cfg.recover = true)
+    (he : e = .dispatch ∨ e = .serveDispatch ∨ ((e = .muxHandleF ∨ e = .serveHandleF) ∧ cfg.cfilters ≠ []))
+    (hr : cfg.recover = true)
     (hrec : Spec.recoverPanicsEarly cfg = false)
     (hp : (raised E cfg e sr).isSome = true)
     (hnothing : (serve E { Spec.noCoding cfg with recover := false } e {} { sr with acceptEncoding := [] }).rc.status = none) :
     (Spec.obsOf (serve E cfg e w sr)).status = Spec.recoverStatus cfg := by
-  have hro : routed e = true := by rcases he with rfl | rfl <;> rfl
+  have hco : covered cfg e = true := (covered_iff cfg e).mpr he
   rw [serve_eq] at hnothing
-  have := serveCore_status E cfg e sr hr hro hrec hp hnothing
+  have := serveCore_status E cfg e sr hr hco hrec hp hnothing
   rw [serve_eq]
   exact this
 
 /-- … which is 500 for the default handler. -/
 theorem C10_status_default (E : ReEnv) (cfg : Cfg) (e : Entry) (w : World) (sr : SReq)
-    (he : e = .dispatch ∨ e = .serveDispatch) (hr : cfg.recover = true) (hd : cfg.recoverScript = none)
+    (he : e = .dispatch ∨ e = .serveDispatch ∨ ((e = .muxHandleF ∨ e = .serveHandleF) ∧ cfg.cfilters ≠ []))
+    (hr : cfg.recover = true) (hd : cfg.recoverScript = none)
     (hp : (raised E cfg e sr).isSome = true)
     (hnothing : (serve E { Spec.noCoding cfg with recover := false } e {} { sr with acceptEncoding := [] }).rc.status = none) :
     (Spec.obsOf (serve E cfg e w sr)).status = 500 := by
@@ -144,6 +160,22 @@ theorem C10_off (E : ReEnv) (cfg : Cfg) (e : Entry) (w : World) (sr : SReq) (hr 
     (serve E cfg e w sr).escaped = raised E cfg e sr := by
   rw [serve_escaped, hr]
   rfl
+
+/-- Outside the scope of recovery — a plain `http.Handler` registered with `Handle`, or with
+    `HandleWithFilter` on a container without filters (container.go:393 then calls it directly) —
+    the panic reaches the caller unchanged and the recover handler is not called, recovery on or
+    not. -/
+theorem C10_plain_propagates (E : ReEnv) (cfg : Cfg) (e : Entry) (w : World) (sr : SReq)
+    (he : e = .muxHandle ∨ e = .serveHandle ∨ ((e = .muxHandleF ∨ e = .serveHandleF) ∧ cfg.cfilters = [])) :
+    (serve E cfg e w sr).escaped = raised E cfg e sr ∧ (serve E cfg e w sr).recoverCalls = 0 := by
+  have hco : covered cfg e = false := by
+    rcases he with rfl | rfl | ⟨rfl | rfl, h⟩
+    · rfl
+    · rfl
+    · simp [h]
+    · simp [h]
+  rw [serve_escaped, serve_recoverCalls, hco]
+  simp
 
 /-- Every entry point, every setting, panic or not: the compressor acquired for the request is
     released again, and a coded response has been closed (its stream is complete). -/
@@ -190,43 +222,63 @@ theorem C10_usable_ledger (E : ReEnv) (cfg : Cfg) (e : Entry) (w : World) (reqs 
     · exact serve_balanced E cfg e w q hw
     · exact ih _ (serve_balanced E cfg e w q hw) r hr
 
-/-- F18 in general: with recovery on, a panic raised by a container filter on the chain
-    `HandleWithFilter` builds escapes the entry point, and `c10Holds` fails. -/
-theorem C10_F18 (E : ReEnv) (cfg : Cfg) (e : Entry) (sr : SReq) (h : Spec.f18Class E cfg e sr = true) :
-    (serve E cfg e {} sr).escaped.isSome = true ∧
-      Spec.c10Holds E cfg e sr (Spec.obsOf (serve E cfg e {} sr)) = false := by
-  simp only [Spec.f18Class, Bool.and_eq_true, Bool.or_eq_true, beq_iff_eq] at h
-  obtain ⟨⟨he, hr⟩, hpf⟩ := h
-  have hro : routed e = false := by rcases he with rfl | rfl <;> rfl
-  have hesc : (serve E cfg e {} sr).escaped.isSome = true := by
-    rw [serve_escaped, hr, hro]
-    exact raised_of_panicFromFilter E cfg e sr hpf
-  refine ⟨hesc, ?_⟩
-  rw [c10Holds_eq, hr, hpf]
-  simp only [Bool.or_true, Bool.and_self, if_true]
-  have : (Spec.obsOf (serve E cfg e {} sr)).escaped.isNone = false := by
-    simp only [Spec.obsOf]
-    cases h : (serve E cfg e {} sr).escaped with
-    | none => rw [h] at hesc; cases hesc
-    | some v => rfl
-  rw [this]
-  rfl
-
-/-- F18, concretely: recovery on, one container filter that panics, a handler registered with
-    `HandleWithFilter`, reached through `ServeHTTP`. -/
-theorem C10_F18_witness :
+/-- F18 repaired (a0e838d), the former witness `C10_F18_witness`: recovery on, one container filter
+    that panics, a handler registered with `HandleWithFilter`, reached through `ServeHTTP` or through
+    the mux alone.  The panic is still raised, but it no longer leaves the entry point: the recover
+    handler ran exactly once, the client sees its 500, and `c10Holds` is true.  The same when the
+    filter passes control on and the handler behind it panics. -/
+theorem C10_F18_fixed :
     let E : ReEnv := ⟨fun _ _ => true, fun _ _ => true⟩
     let cfg : Cfg :=
       { routing := { router := .curly, services := [] }
         recover := true
         cfilters := [{ id := 1, pre := [.panic "p".toList], kind := .pass, post := [] }] }
+    let cfgH : Cfg :=
+      { routing := { router := .curly, services := [] }
+        recover := true
+        cfilters := [{ id := 1, pre := [], kind := .pass, post := [] }]
+        plainScript := [.panic "h".toList] }
     let sr : SReq := { req := { method := "GET".toList, path := "/x".toList } }
-    Spec.f18Class E cfg .serveHandleF sr = true ∧
-      (serve E cfg .serveHandleF {} sr).escaped = some "p".toList ∧
-      Spec.c10Holds E cfg .serveHandleF sr (Spec.obsOf (serve E cfg .serveHandleF {} sr)) = false := by
+    (raised E cfg .serveHandleF sr = some "p".toList ∧
+      (serve E cfg .serveHandleF {} sr).escaped = none ∧
+      (serve E cfg .serveHandleF {} sr).recoverCalls = 1 ∧
+      (Spec.obsOf (serve E cfg .serveHandleF {} sr)).status = 500 ∧
+      Spec.c10Holds E cfg .serveHandleF sr (Spec.obsOf (serve E cfg .serveHandleF {} sr)) = true) ∧
+    ((serve E cfg .muxHandleF {} sr).escaped = none ∧
+      (serve E cfg .muxHandleF {} sr).recoverCalls = 1 ∧
+      Spec.c10Holds E cfg .muxHandleF sr (Spec.obsOf (serve E cfg .muxHandleF {} sr)) = true) ∧
+    (raised E cfgH .serveHandleF sr = some "h".toList ∧
+      (serve E cfgH .serveHandleF {} sr).escaped = none ∧
+      (serve E cfgH .serveHandleF {} sr).recoverCalls = 1 ∧
+      (serve E cfgH .serveHandleF {} sr).log.map (fun ev => (ev.stage, ev.post)) =
+        [(.cfilter 1, false), (.plain 0, false)] ∧
+      Spec.c10Holds E cfgH .serveHandleF sr (Spec.obsOf (serve E cfgH .serveHandleF {} sr)) = true) := by
   decide
 
-/-- Why `C10_partial` asks that the recover handler does not itself panic before writing: the model
+/-- … and with recovery off (`DoNotRecover(true)`, the library's default) the same panic propagates
+    to the caller of `ServeHTTP` unchanged, no recover handler runs, and `c10Holds` still holds:
+    there is nothing to recover.  Likewise, recovery on, for `HandleWithFilter` on a container
+    without filters (the handler is called directly: outside the scope of recovery). -/
+theorem C10_F18_recovery_off :
+    let E : ReEnv := ⟨fun _ _ => true, fun _ _ => true⟩
+    let cfg : Cfg :=
+      { routing := { router := .curly, services := [] }
+        recover := false
+        cfilters := [{ id := 1, pre := [.panic "p".toList], kind := .pass, post := [] }] }
+    let cfg0 : Cfg :=
+      { routing := { router := .curly, services := [] }
+        recover := true
+        plainScript := [.panic "h".toList] }
+    let sr : SReq := { req := { method := "GET".toList, path := "/x".toList } }
+    ((serve E cfg .serveHandleF {} sr).escaped = some "p".toList ∧
+      (serve E cfg .serveHandleF {} sr).recoverCalls = 0 ∧
+      Spec.c10Holds E cfg .serveHandleF sr (Spec.obsOf (serve E cfg .serveHandleF {} sr)) = true) ∧
+    ((serve E cfg0 .serveHandleF {} sr).escaped = some "h".toList ∧
+      (serve E cfg0 .serveHandleF {} sr).recoverCalls = 0 ∧
+      Spec.c10Holds E cfg0 .serveHandleF sr (Spec.obsOf (serve E cfg0 .serveHandleF {} sr)) = true) := by
+  decide
+
+/-- Why `C10_recovery` asks that the recover handler does not itself panic before writing: the model
     drops a panic of the recover handler, `recoverStatus` reads the `writeHeader 503` behind it. -/
 theorem C10_recover_handler_panics_witness :
     let E : ReEnv := ⟨fun _ _ => true, fun _ _ => true⟩
@@ -235,7 +287,7 @@ theorem C10_recover_handler_panics_witness :
         recover := true
         recoverScript := some [.panic "again".toList, .writeHeader 503] }
     let sr : SReq := { req := { method := "GET".toList, path := "/x".toList }, condPanic := some "p".toList }
-    Spec.f18Class E cfg .dispatch sr = false ∧ Spec.recoverPanicsEarly cfg = true ∧
+    Spec.recoverPanicsEarly cfg = true ∧
       (Spec.obsOf (serve E cfg .dispatch {} sr)).status = 200 ∧ Spec.recoverStatus cfg = 503 ∧
       Spec.c10Holds E cfg .dispatch sr (Spec.obsOf (serve E cfg .dispatch {} sr)) = false := by
   decide
@@ -257,7 +309,7 @@ example :
     raised E cfg .dispatch sr = some "boom".toList ∧
       o.escaped = none ∧ o.recov = 1 ∧ o.coded = true ∧ o.complete = true ∧ o.body = "xr".toList ∧
       o.status = 200 ∧ o.acq = 1 ∧ o.rel = 1 ∧
-      Spec.f18Class E cfg .dispatch sr = false ∧ Spec.recoverPanicsEarly cfg = false ∧
+      Spec.recoverPanicsEarly cfg = false ∧
       Spec.c10Holds E cfg .dispatch sr o = true := by
   decide
 
@@ -277,6 +329,37 @@ example :
     o.escaped = none ∧ o.recov = 1 ∧ o.coded = true ∧ o.complete = true ∧ o.body = "r".toList ∧
       o.status = 503 ∧ Spec.recoverStatus cfg = 503 ∧ o.acq = 1 ∧ o.rel = 1 ∧
       Spec.c10Holds E cfg .dispatch sr o = true := by
+  decide
+
+/-- non-vacuity on the path F18 was about: `HandleWithFilter` through `ServeHTTP`, recovery and
+    encoding on, gzip asked for, custom recover handler.  The first container filter writes a byte
+    and passes on, the second panics: the handler does not run, the first filter does not come back,
+    nothing escapes, one recover call, the coded stream is closed and carries the filter's byte and
+    the recover handler's, the status is the 200 locked by the first byte, the ledger is balanced.
+    With a first filter that writes nothing the recover handler's 503 is the status. -/
+example :
+    let E : ReEnv := ⟨fun _ _ => true, fun _ _ => true⟩
+    let cfg : Cfg :=
+      { routing := { router := .curly, services := [] }
+        cfilters := [{ id := 1, pre := [.write "a".toList], kind := .pass, post := [.write "z".toList] },
+                     { id := 2, pre := [.panic "boom".toList], kind := .pass, post := [] }]
+        plainScript := [.write "h".toList]
+        encoding := true
+        recover := true
+        recoverScript := some [.writeHeader 503, .write "r".toList] }
+    let cfg' : Cfg := { cfg with cfilters := [{ id := 1, pre := [], kind := .pass, post := [] },
+                                              { id := 2, pre := [.panic "boom".toList], kind := .pass, post := [] }] }
+    let sr : SReq := { req := { method := "GET".toList, path := "/x".toList }, acceptEncoding := "gzip".toList }
+    let o := Spec.obsOf (serve E cfg .serveHandleF {} sr)
+    let o' := Spec.obsOf (serve E cfg' .serveHandleF {} sr)
+    raised E cfg .serveHandleF sr = some "boom".toList ∧
+      o.escaped = none ∧ o.recov = 1 ∧ o.coded = true ∧ o.complete = true ∧ o.body = "ar".toList ∧
+      o.status = 200 ∧ o.acq = 1 ∧ o.rel = 1 ∧
+      o.log.map (fun ev => (ev.stage, ev.post)) = [(.cfilter 1, false), (.cfilter 2, false), (.recover, false)] ∧
+      Spec.recoverPanicsEarly cfg = false ∧
+      Spec.c10Holds E cfg .serveHandleF sr o = true ∧
+      o'.escaped = none ∧ o'.recov = 1 ∧ o'.body = "r".toList ∧ o'.status = 503 ∧ o'.complete = true ∧
+      Spec.c10Holds E cfg' .serveHandleF sr o' = true := by
   decide
 
 end Props
